@@ -38,6 +38,7 @@ class Skel:
         self.rexw = "0"     # C expression: instruction needs REX.W
         self.tags = set()
         self.want = "0"     # operation the decoder is asked to recognise (0 = any)
+        self.pair = False   # non-interference: assemble the same text on a second instance with other options
 
     # ---- inputs -------------------------------------------------------
     def reg(self, mask, letter="r"):
@@ -172,6 +173,35 @@ class Skel:
                 L.append("      " + p)
             L.append("    }")
             L.append("    vf_frame_check(al, start, end, rc);")
+            L.append("  }")
+        if self.pair:
+            L.append("  {")
+            L.append("    static uint8_t buf2[BUFN];")
+            L.append("    unsigned long mv2 = IN(24), sw2 = IN(25), nb2 = IN(26);")
+            L.append("    ASSUME(mv2 < 3 && sw2 < 2 && nb2 < 2);")
+            L.append("    for (int i = 0; i < BUFN; i++) buf2[i] = vf_shadow[i];")
+            L.append("    assemblyline_t al2 = asm_create_instance(buf2, BUFN);")
+            L.append("    ASSUME(al2 != NULL);")
+            L.append("    asm_mov_imm(al2, (enum asm_opt)mv2); asm_sib_index_base_swap(al2, (enum asm_opt)sw2); asm_sib_no_base(al2, (enum asm_opt)nb2);")
+            L.append("    asm_set_offset(al2, start);")
+            L.append("#ifdef VF_CBMC")
+            L.append('    strcpy(vf_text, "%s\\n");' % c_escape(self.extra_lines_before + self.text()))
+            L.append("#endif")
+            L.append("    int rc2 = asm_assemble_str(al2, vf_text);")
+            L.append("    int end2 = asm_get_offset(al2);")
+            L.append("#ifndef VF_CBMC")
+            L.append('    printf("OPTIONS2 %lu %lu %lu RC2 %d BYTES2", mv2, sw2, nb2, rc2); for (int i = start; rc2 == 0 && i < end2 && i < BUFN; i++) printf(" %02x", buf2[i]); printf("\\n");')
+            L.append("#endif")
+            L.append('    CHECK(rc == rc2, "same return value under any two option combinations");')
+            L.append("    if (rc == EXIT_SUCCESS && rc2 == EXIT_SUCCESS) {")
+            L.append('      CHECK(end == end2, "same code length under any two option combinations");')
+            L.append("#ifdef VF_CBMC")
+            L.append("      unsigned q = nondet_uint(); __CPROVER_assume(q < BUFN);")
+            L.append('      CHECK(vf_buf[q] == buf2[q], "identical bytes under any two option combinations");')
+            L.append("#else")
+            L.append('      for (int q = 0; q < BUFN; q++) CHECK(vf_buf[q] == buf2[q], "identical bytes under any two option combinations");')
+            L.append("#endif")
+            L.append("    }")
             L.append("  }")
         L.append("  WITNESS();")
         L.append("}")
